@@ -532,6 +532,37 @@ func (p *vpIdP) writeTokens(rw http.ResponseWriter, kind string, lid string, lin
 			delete(resp, "id_token")
 		case "noaccesstoken":
 			delete(resp, "access_token")
+		// member shapes: optional members missing / null / of another JSON type, alone and combined with a missing id_token
+		case "noexpires":
+			delete(resp, "expires_in")
+		case "expires_zero":
+			resp["expires_in"] = 0
+		case "expires_null":
+			resp["expires_in"] = nil
+		case "expires_string":
+			resp["expires_in"] = "3600"
+		case "norefresh":
+			delete(resp, "refresh_token")
+		case "refresh_null":
+			resp["refresh_token"] = nil
+		case "notokentype":
+			delete(resp, "token_type")
+		case "noidtoken_noexpires":
+			delete(resp, "id_token")
+			delete(resp, "expires_in")
+		case "idtoken_null_noexpires":
+			resp["id_token"] = nil
+			delete(resp, "expires_in")
+		case "idtoken_null":
+			resp["id_token"] = nil
+		case "idtoken_number":
+			resp["id_token"] = 7
+		case "idtoken_empty":
+			resp["id_token"] = ""
+		case "access_null":
+			resp["access_token"] = nil
+		case "access_number":
+			resp["access_token"] = 7
 		}
 	}
 	rw.Header().Set("Content-Type", "application/json")
